@@ -90,8 +90,8 @@ def parse_consts():
     m = re.search(r"const MAX_GUARD_SIZE: usize = (\d+);", cg)
     need(m, "codegen.rs: MAX_GUARD_SIZE not found")
     max_guard = int(m.group(1))
-    need(cg.count("ranges.len() > MAX_GUARD_SIZE") == 3,
-         "codegen.rs: the `len() > MAX_GUARD_SIZE` tests changed")
+    # how the threshold is used (`len() > MAX_GUARD_SIZE`: guard chain or search table) is no longer pinned
+    # textually here: harness/gencode.py compares the shape of every generated guard with GenCode.mk_guard
     util = read("crates/lexgen_util/src/lib.rs")
     m = re.search(
         r"self\.current_match_end\.byte_idx \+= char\.len_utf8\(\);\s*"
@@ -105,9 +105,16 @@ def parse_consts():
         r"\}", util)
     need(m, "lexgen_util: the location update in Lexer::next no longer has the expected shape")
     tab = int(m.group(1))
-    gen = read("crates/char_range_gen/src/main.rs")
-    need("for i in 0..=u32::from(char::MAX)" in gen, "char_range_gen: loop bound changed")
     return max_guard, tab
+
+
+def component_status():
+    """source shapes that only some properties depend on: {property: problem}; never fatal for the others"""
+    out = {}
+    gen = read("crates/char_range_gen/src/main.rs")
+    if "for i in 0..=u32::from(char::MAX)" not in gen:
+        out["C18"] = "char_range_gen: the loop `for i in 0..=u32::from(char::MAX)` that CharGen.v models changed"
+    return out
 
 
 def run_oracle():
@@ -179,6 +186,9 @@ def main():
     lines = ["; ".join(items[i:i + 8]) for i in range(0, len(items), 8)]
     out.append("  [" + ";\n   ".join(lines) + "]%N.\n")
     write_if_changed(os.path.join(GEN, "GenOracle.v"), "\n".join(out))
+    import json
+    with open(os.path.join(GEN, "status.json"), "w") as f:
+        json.dump(component_status(), f)
     print("gen_coq: %d tables, %d builtins, MAX_GUARD_SIZE=%d, tab=%d, %d oracle predicates, %d width runs"
           % (len(tables), len(names), max_guard, tab, len(preds), len(widths)))
 
